@@ -39,6 +39,8 @@ class Walker:
         self.crashed_prev = False
         self.life_kind = []       # per lifetime: 'clean' | 'crash'
         self.reads = []           # recorded (life, step, meta, resp) for cross-checks
+        self.parked_at = {}       # (life, step) -> sorted gate names parked when the step was issued
+        self.cur_tag = None
         self.samples = []
 
     # ------------------------------------------------------------ helpers
@@ -49,7 +51,8 @@ class Walker:
         except Exception:
             pass
         d = {"clause": clause, "life": li, "step": si, "detail": detail, "text": text,
-             "after_restart": li > 0, "after_crash": self.crashed_prev}
+             "after_restart": li > 0, "after_crash": self.crashed_prev,
+             "parked": self.parked_at.get((li, si), []), "tag": self.cur_tag}
         d.update(kw)
         self.viol.append(d)
 
@@ -60,15 +63,37 @@ class Walker:
                 break
             events, code, err = self.results[li]
             self.walk_life(li, life, events, code, err)
+        self.finish()
         return self.viol, self.stats
+
+    def finish(self):
+        # C18: within a shard, ids strictly increase in apply order (events whose id was observed)
+        by_shard = defaultdict(list)
+        for e in self.model.events:
+            if e.eid is not None and e.state == "must":
+                by_shard[event_id_shard(e.eid)].append(e)
+        for sh, evs in by_shard.items():
+            evs.sort(key=lambda e: e.idx)
+            for a, b in zip(evs, evs[1:]):
+                if not (a.eid < b.eid):
+                    self.v("id-order", b.life, b.step, f"shard {sh}: k={b.k} (applied after k={a.k}) has id {b.eid} <= {a.eid}", k=b.k)
+                    break
+        self.stats["ids_observed"] += sum(len(v) for v in by_shard.values())
 
     def walk_life(self, li, life, events, code, err):
         resp_by_step, issue_by_step, stuck = {}, {}, set()
         crash = None
         end = None
         ready = False
+        parked_now = {}
         for e in events:
             t = e.get("t")
+            if t == "gate" and e.get("parked"):
+                parked_now[e.get("rule")] = e.get("name")
+            elif t == "release":
+                parked_now.pop(e.get("rule"), None)
+            elif t == "issue":
+                self.parked_at[(li, e["step"])] = sorted(parked_now.values())
             if t == "resp":
                 resp_by_step[e["step"]] = e
             elif t == "issue":
@@ -131,6 +156,7 @@ class Walker:
                 self.v("panic", li, si, re_.get("body"))
                 continue
             self.stats["cmd:" + str(kind)] += 1
+            self.cur_tag = meta.get("tag")
             if kind in ("store", "define", "flush"):
                 self.checkpoint = {}
             h = getattr(self, "on_" + str(kind), None)
@@ -270,6 +296,8 @@ class Walker:
             self._prefix_rule(li, si, t)
         self.checkpoint[t] = set(got)
         self.stats["reads:select"] += 1
+        self._cur_atoms = []
+        _invariance(self, li, si, st.get("text"), sorted(x for x in got if x is not None))
         if len(self.samples) < 3:
             self.samples.append({"life": li, "step": si, "text": st.get("text"), "rows": len(rows)})
 
@@ -297,6 +325,8 @@ class Walker:
             return
         val = r.rows[0][0] if r.rows else 0
         self.stats["reads:count"] += 1
+        self._cur_atoms = []
+        _invariance(self, li, si, st.get("text"), val, "count")
         sel = self.checkpoint.get(t)
         if sel is not None and val != len(sel):
             self.v("count-vs-selection", li, si, f"QUERY {t} COUNT = {val} but the selection in the same state returned {len(sel)} distinct events", got=val, want=len(sel))
@@ -322,3 +352,211 @@ class Walker:
         if order != sorted(order):
             self.v("replay-order", li, si, f"{what}: returned k order {got}, append order {[e.k for e in sorted((self.model.bykey[k] for k in set(got) if k in self.model.bykey), key=lambda e: e.idx)]}")
         self.stats["reads:replay"] += 1
+        self._cur_atoms = []
+        _invariance(self, li, si, what, sorted(x for x in got if x is not None), "membership")
+
+
+# ====================================================================== query oracles
+from . import qmodel as Q
+
+
+def _version(self):
+    c = Counter(e.state for e in self.model.events)
+    return (c.get("must", 0), c.get("may", 0), c.get("gone", 0))
+
+
+def _invariance(self, li, si, text, answer, what="answer"):
+    """The same question on the same history must get the same answer in every layout/lifetime."""
+    if not hasattr(self, "inv"):
+        self.inv = {}
+    key = (text, _version(self))
+    prev = self.inv.get(key)
+    if prev is None:
+        self.inv[key] = (answer, li, si)
+    elif prev[0] != answer:
+        self.v("layout-variance", li, si,
+               f"{text}: {what} {answer} differs from {prev[0]} given at life {prev[1]} step {prev[2]} for the same history",
+               atoms=getattr(self, "_cur_atoms", None))
+    self.stats["invariance_checks"] += 1
+
+
+def on_query(self, li, si, st, meta, issue, r):
+    q = meta["q"]
+    t = q["type"]
+    what = st.get("text")
+    self._cur_atoms = sorted(set(str(a) for a in Q.pred_atoms(q["where"]))) if q.get("where") else []
+    rows = self._rows(li, si, r, what)
+    if rows is None:
+        return
+    must = Q.select(self.model.live(t, states=("must",)), q)
+    may = Q.select(self.model.live(t, states=("may",)), q)
+    allowed = {e.k for e in must} | {e.k for e in may}
+    got, seen = [], Counter()
+    for row in rows:
+        k = row.get("k")
+        if "k" not in row:
+            # RETURN list without k: identify the row by its event id
+            k = self.k_of_eid.get(row.get("event_id"))
+        got.append(k)
+        seen[k] += 1
+        ev = self.model.bykey.get(k)
+        if ev is None or ev.state == "gone":
+            self.v("foreign-row", li, si, f"{what}: row {row} matches no applied event", k=k, atoms=self._cur_atoms)
+            continue
+        if k not in allowed:
+            self.v("query-extra", li, si, f"{what}: returned k={k} which does not satisfy the query (stored {ev.stored}, ctx {ev.ctx}, ts {ev.ts})", k=k, atoms=self._cur_atoms)
+        self._check_row(li, si, row, ev)
+    for k, n in seen.items():
+        if n > 1:
+            self.v("duplicate-row", li, si, f"{what}: k={k} returned {n} times", k=k, atoms=self._cur_atoms)
+    lim = q.get("limit")
+    if lim is None:
+        for e in must:
+            if seen[e.k] == 0:
+                self.v("query-missing", li, si, f"{what}: matching event k={e.k} (stored {e.stored}, ctx {e.ctx}) not returned", k=e.k, atoms=self._cur_atoms)
+        _invariance(self, li, si, what, sorted(x for x in got if x is not None))
+    else:
+        want_n = min(lim, len(must))
+        if not may and len(set(got)) != want_n:
+            self.v("limit-count", li, si, f"{what}: {len(set(got))} distinct rows, expected min({lim}, {len(must)})", atoms=self._cur_atoms)
+    if q.get("ret") is not None and r is not None and r.columns is not None:
+        schema = self.model.schemas.get(t, {})
+        want_cols = ["context_id", "event_type", "timestamp", "event_id"] + [f for f in dict.fromkeys(q["ret"]) if f in schema]
+        if q["ret"] and list(r.columns) != want_cols and sorted(r.columns) != sorted(want_cols):
+            self.v("return-columns", li, si, f"{what}: columns {r.columns}, expected {want_cols}")
+    self.last_sel = getattr(self, "last_sel", {})
+    self.last_sel[meta.get("fkey")] = [x for x in got if x is not None]
+    self.stats["reads:query"] += 1
+
+
+def _norm_cell(v):
+    if isinstance(v, bool):
+        return str(v).lower()
+    if isinstance(v, float) and v == int(v) and abs(v) < 2**53:
+        return str(int(v))
+    return "null" if v is None else str(v)
+
+
+def _table(r, q):
+    """Decode an aggregate response into {group key (tuple of str): {col: value}}."""
+    nkey = (1 if q.get("per") else 0) + len(q.get("by") or [])
+    out = {}
+    dup = []
+    for row in r.rows:
+        key = tuple(_norm_cell(x) for x in row[:nkey])
+        if key in out:
+            dup.append(key)
+        out[key] = dict(zip(r.columns[nkey:], row[nkey:]))
+    return out, dup
+
+
+def _metrics_equal(a, b):
+    if a is None or b is None:
+        return a is None and b is None
+    try:
+        return abs(float(a) - float(b)) <= 1e-9 * max(1.0, abs(float(a)), abs(float(b)))
+    except (TypeError, ValueError):
+        return str(a) == str(b)
+
+
+def on_agg(self, li, si, st, meta, issue, r):
+    q = meta["q"]
+    t = q["type"]
+    what = st.get("text")
+    if r is None:
+        return
+    if r.kind != "stream":
+        self.v("read-error", li, si, f"{what}: {r}")
+        return
+    atoms = sorted(set([m[0] for m in q["metrics"]] + (["BY"] if q.get("by") else []) + (["PER"] if q.get("per") else [])
+                       + (["LIMIT"] if q.get("limit") is not None else []) + (["WHERE"] if q.get("where") else [])
+                       + (["FOR"] if q.get("ctx") else [])))
+    got, dup = _table(r, q)
+    for key in dup:
+        self.v("agg-duplicate-group", li, si, f"{what}: group {key} reported twice", atoms=atoms)
+    has_may = any(e.state == "may" for e in self.model.live(t, states=("may",)))
+    # (1) self-consistency with the selection issued in the same state
+    sel = getattr(self, "last_sel", {}).get(meta.get("fkey"))
+    refs = []
+    if sel is not None:
+        evs = [self.model.bykey[k] for k in dict.fromkeys(sel) if k in self.model.bykey]
+        refs.append(("agg-vs-selection", Q.aggregate(evs, q)))
+    if not has_may:
+        refs.append(("agg-vs-model", Q.aggregate(Q.select(self.model.live(t, states=("must",)), q), q)))
+    for clause, ref in refs:
+        want = {tuple(_norm_cell(x) for x in k): v for k, v in ref.items()}
+        lim = q.get("limit")
+        if lim is not None:
+            if len(got) != min(lim, len(want)):
+                self.v(clause, li, si, f"{what}: {len(got)} groups, expected min({lim}, {len(want)})", atoms=atoms, sub="limit-groups")
+            keys = [k for k in got if k in want]
+            if len(keys) != len(got):
+                self.v(clause, li, si, f"{what}: unknown groups {[k for k in got if k not in want]}", atoms=atoms, sub="groups")
+        else:
+            if set(got) != set(want):
+                self.v(clause, li, si, f"{what}: groups {sorted(got)} expected {sorted(want)}", atoms=atoms, sub="groups")
+            keys = [k for k in got if k in want]
+        for k in keys:
+            for col, wv in want[k].items():
+                if col not in got[k]:
+                    self.v(clause, li, si, f"{what}: metric column {col} missing (columns {r.columns})", atoms=atoms, sub="columns")
+                elif not _metrics_equal(got[k][col], wv):
+                    self.v(clause, li, si, f"{what}: group {k} {col} = {got[k][col]!r}, fold over the selected events gives {wv!r}", atoms=atoms, sub="value", metric=col.split("_")[0])
+    if q.get("limit") is None:
+        self._cur_atoms = atoms
+        _invariance(self, li, si, what, sorted((k, sorted((c, _norm_cell(v)) for c, v in m.items())) for k, m in got.items()), "table")
+    self.stats["reads:agg"] += 1
+
+
+def on_ordered(self, li, si, st, meta, issue, r):
+    q = meta["q"]
+    t = q["type"]
+    what = st.get("text")
+    atoms = ["ORDER", "DESC" if q.get("desc") else "ASC"] + (["LIMIT"] if q.get("limit") is not None else []) + (["OFFSET"] if q.get("offset") else [])
+    rows = self._rows(li, si, r, what)
+    if rows is None:
+        return
+    if any(e.state == "may" for e in self.model.live(t, states=("may",))):
+        return
+    must = Q.select(self.model.live(t, states=("must",)), q)
+    allowed = {e.k for e in must}
+    field = q["order"]
+    got_keys, seen = [], Counter()
+    for row in rows:
+        k = row.get("k")
+        seen[k] += 1
+        ev = self.model.bykey.get(k)
+        if ev is None or k not in allowed:
+            self.v("order-extra", li, si, f"{what}: returned k={k} which does not satisfy the query", k=k, atoms=atoms)
+            continue
+        self._check_row(li, si, row, ev)
+        got_keys.append(Q.field_value(ev, field))
+    for k, n in seen.items():
+        if n > 1:
+            self.v("duplicate-row", li, si, f"{what}: k={k} returned {n} times", k=k, atoms=atoms)
+    srt = sorted(got_keys, key=Q.sort_key_value, reverse=bool(q.get("desc")))
+    if got_keys != srt:
+        self.v("order-unsorted", li, si, f"{what}: sort keys come back as {got_keys}", atoms=atoms)
+    full = Q.ordered_keys(must, field, bool(q.get("desc")))
+    m = q.get("offset") or 0
+    n = q.get("limit")
+    want = full[m:] if n is None else full[m:m + n]
+    if sorted(got_keys, key=Q.sort_key_value) != sorted(want, key=Q.sort_key_value):
+        self.v("order-slice", li, si, f"{what}: sort keys {got_keys}, positions {m}..{'' if n is None else m+n} of the order are {want}", atoms=atoms)
+    self._cur_atoms = atoms
+    _invariance(self, li, si, what, [str(x) for x in sorted(got_keys, key=Q.sort_key_value)], "sort keys")
+    self.stats["reads:ordered"] += 1
+
+
+def on_expect_error(self, li, si, st, meta, issue, r):
+    if r is None:
+        return
+    if r.kind == "stream" or (r.kind == "plain" and r.status == 200):
+        self.v(meta.get("clause", "expected-error"), li, si, f"{st.get('text')}: expected an error response, got {r}")
+    self.stats["reads:expect_error"] += 1
+
+
+Walker.on_query = on_query
+Walker.on_agg = on_agg
+Walker.on_ordered = on_ordered
+Walker.on_expect_error = on_expect_error
